@@ -16,7 +16,8 @@ typedef struct { unsigned id; } iora_path;
 typedef int iora_ec;                     /* std::error_code: 0 == no error */
 #define iora_ec_DEFAULT 0
 typedef struct {
-  unsigned root_kind;                    /* 1 = FsState::staticsRoot, 2 = FsState::templatesRoot (canonicalised at construction), 0 = not a root */
+  unsigned root_kind;                    /* 1 = FsState::staticsRoot, 2 = FsState::templatesRoot (canonicalised at construction), 3 = weakly_canonical(EXTERNAL_DIR) of this call, 0 = not a root */
+  bool ext_dir;                          /* the path built from the registry's EXTERNAL_DIR string */
   bool canon;                            /* result of weakly_canonical(...) with ec == 0 */
   bool empty;                            /* path::empty() */
   unsigned ncomp;                        /* number of components (begin()==end() iff 0 iff empty) */
@@ -45,13 +46,17 @@ static inline iora_path iora_path_new(void)
 }
 /* fs::path(std::string(sv)) */
 static inline iora_path iora_path_from_sv(iora_sv s) { (void)s; return iora_path_new(); }
+/* fs::path externalDir(std::string(_registry->externalDir)) */
+static inline iora_path iora_path_external_dir(iora_sv s) { (void)s; iora_path r = iora_path_new(); G_path[r.id].ext_dir = true; return r; }
 /* a / b */
 static inline iora_path iora_path_join(iora_path a, iora_path b) { (void)a; (void)b; return iora_path_new(); }
 /* p += "lit": same directory, leaf name extended */
 static inline void iora_path_append_lit(iora_path *p, const char *lit) { (void)lit; unsigned old = p->id; *p = iora_path_new(); G_path[p->id].sibling_of = old + 1; }
 /* fs::weakly_canonical(p, ec): any error code; the result is tagged canonical only when no error is reported */
 static inline iora_path iora_fs_weakly_canonical(iora_path p, iora_ec *ec)
-{ (void)p; G_fs_calls++; *ec = nondet_int(); iora_path r = iora_path_new(); G_path[r.id].canon = (*ec == 0); return r; }
+{ G_fs_calls++; *ec = nondet_int(); IORA_ASSERT(p.id < IORA_NP, "path id"); bool ext = G_path[p.id].ext_dir; iora_path r = iora_path_new(); G_path[r.id].canon = (*ec == 0);
+  if (ext && *ec == 0) G_path[r.id].root_kind = 3;      /* the containment base of the external-directory branch: EXTERNAL_DIR canonicalised in this call */
+  return r; }
 /* fs::is_regular_file(p, ec): any answer */
 static inline bool iora_fs_is_regular_file(iora_path p, iora_ec *ec)
 { G_fs_calls++; *ec = nondet_int(); bool r = nondet_bool(); IORA_ASSERT(p.id < IORA_NP, "path id"); G_path[p.id].regular = r; return r; }
